@@ -23,10 +23,48 @@ def generate(rng, tier='quick', family=None, **kw):
                   'payloads': [('c%d|retry-me' % i).encode().hex()], 'acks': 1,
                   'timeout': rng.choice([0.3, 0.5]), 'svc': {'delay': 0.002, 'error': rng.choice([6, 6, 0])}})
       t += rng.choice([0.0, 0.05, 1.0])
+    if rng.random() < 0.6:
+      # a Put that is still unanswered (slow broker) when the router rebuilds
+      # its per-topic balancers after the refresh, and one more afterwards
+      k = len(ops)
+      ops.insert(1, {'t': ops[1]['t'], 'op': 'put', 'id': 'c%d' % k, 'topic': 't0',
+                     'payloads': [('c%d|slow' % k).encode().hex()], 'acks': 1, 'timeout': 0.5,
+                     'svc': {'delay': rng.choice([4.0, 6.0]), 'error': 0}})
+      ops.append({'t': round(t + 8.0, 4), 'op': 'put', 'id': 'c%d' % (k + 1), 'topic': 't0',
+                  'payloads': [('c%d|after' % (k + 1)).encode().hex()], 'acks': 1, 'timeout': 2.0,
+                  'svc': {'delay': 0.002, 'error': 0}})
     return {'world': 'w_kafka', 'brokers': n_brokers, 'topics': topics, 'ops': ops, 'meta_extra': {},
             'meta_topic_err': {}, 'directives': [], 'offset_base': 0, 'bootstrap': [0],
             'net': {'chunk': rng.choice(['none', 'some']), 'jitter': 0.0}, 'unknown_topic': False,
             'family': 'stale_meta', 'slow_meta': {'after': 5.0, 'delay': rng.choice([0.8, 1.5, 3.0])}}
+  if family == 'backpressure' or (family is None and rng.random() < 0.06):
+    # one topic spread over two or three brokers, a burst of Puts with short and
+    # long deadlines and slow replies, one write parked by back-pressure for
+    # longer than the short deadlines, then further Puts: requests expire in a
+    # send queue while others on the same connection are still unanswered
+    n_brokers = rng.randint(2, 3)
+    topics = {'t0': list(range(n_brokers))}
+    ops = []
+    k = rng.randint(6, 12)
+    for i in range(k):
+      ops.append({'t': 0.001 + 0.001 * rng.randint(0, 2), 'op': 'put', 'id': 'c%d' % i, 'topic': 't0',
+                  'payloads': [('c%d|burst' % i).encode().hex()], 'acks': 1,
+                  'timeout': rng.choice([0.05, 0.05, 2.0]),
+                  'svc': {'delay': rng.choice([0.005, 0.08, 0.15, 0.3]), 'error': rng.choice([0, 0, 0, 2])}})
+    ops.sort(key=lambda o: o['t'])
+    t = 0.06
+    for i in range(k, k + rng.randint(4, 10)):
+      t += rng.choice([0.0, 0.01, 0.04])
+      ops.append({'t': round(t, 4), 'op': 'put', 'id': 'c%d' % i, 'topic': 't0',
+                  'payloads': [('c%d|later' % i).encode().hex()], 'acks': 1, 'timeout': rng.choice([0.5, 2.0]),
+                  'svc': {'delay': rng.choice([0.005, 0.08, 0.15]), 'error': rng.choice([0, 0, 7])}})
+    directives = [{'ep': None, 'conn': rng.choice([0, 0, 1]), 'op': 'send', 'index': None,
+                   'nth': rng.randint(2, 5), 'kind': 'block', 'arg': rng.choice([0.1, 0.15])}
+                  for _ in range(rng.randint(1, 2))]
+    return {'world': 'w_kafka', 'brokers': n_brokers, 'topics': topics, 'ops': ops, 'meta_extra': {},
+            'meta_topic_err': {}, 'directives': directives, 'offset_base': 0,
+            'bootstrap': [rng.randrange(n_brokers)], 'family': 'backpressure',
+            'net': {'chunk': rng.choice(['none', 'some', 'bytes']), 'jitter': 0.0}, 'unknown_topic': False}
   n_brokers = rng.randint(1, 3)
   topics = {}
   for ti in range(rng.randint(1, 3)):
@@ -131,6 +169,21 @@ def run(scn):
   matched = {}
   sent_meta, got_meta = [], []
   pending_corr = {}
+  kafka_sinks = []
+  from scales.constants import ChannelState as _CS
+  import scales.mux.sink as _ms
+  _orig_pool_init = _ms.TagPool.__init__
+
+  def _pool_init(tp, *a, **kw):
+    _orig_pool_init(tp, *a, **kw)
+    tp.sim_start = getattr(tp, '_next', None)
+  _ms.TagPool.__init__ = _pool_init
+  _orig_sink_init = _ms.MuxSocketTransportSink.__init__
+
+  def _sink_init(sink, *a, **kw):
+    _orig_sink_init(sink, *a, **kw)
+    kafka_sinks.append(sink)
+  _ms.MuxSocketTransportSink.__init__ = _sink_init
   sent_produce, got_produce = [], []
 
   class W(object):
@@ -255,8 +308,25 @@ def run(scn):
     c.extra['topic'] = topic
     c.extra['payloads'] = payloads
   gevent.sleep(4.0)
-
   # ---- oracles ----
+  # C11: correlation-id accounting on every broker transport that is open: each
+  # id handed out so far is either free again or held by an unanswered request
+  # (also after the transport was closed and opened again)
+  for sink in kafka_sinks:
+    pool = getattr(sink, '_tag_pool', None)
+    held = getattr(sink, '_tag_map', None)
+    free = getattr(pool, '_set', None)
+    start = getattr(pool, 'sim_start', None)
+    nxt = getattr(pool, '_next', None)
+    if None in (pool, held, free, start, nxt) or sink.state != _CS.Open:
+      continue
+    REC.probe('tag_accounting_checked')
+    if nxt - start != len(free) + len(held):
+      REC.violation('C11', 'tag_accounting',
+                    '%s: %d correlation ids handed out so far, %d free, %d held by unanswered requests' % (
+                      getattr(sink, '_socket_source', '?'), nxt - start, len(free), len(held)),
+                    {'sign': 'lost' if nxt - start > len(free) + len(held) else 'duplicated', 'stack': 'kafka'})
+      break
   # C12: once the caller of a Put has been handed TimeoutError, nothing of that
   # Put is written to a broker connection any more (its retry included)
   for c in tracker.order:
